@@ -72,6 +72,11 @@ pub struct WireTalk {
     /// a message under its session that does not decode (another protocol revision); 0 = nothing
     #[serde(default)]
     pub interlude: u8,
+    /// V's session cache holds two sessions: peers 1 and 2 connect first, peer 1 then sends the TALK
+    /// requests (the most recent use of any session), and while they are held a third peer connects -
+    /// the session that has to go is peer 2's
+    #[serde(default)]
+    pub crowded: bool,
 }
 
 async fn run_wire(wt: &WireTalk, rep: &mut CaseReport) -> Option<(String, String)> {
@@ -79,7 +84,7 @@ async fn run_wire(wt: &WireTalk, rep: &mut CaseReport) -> Option<(String, String
     use crate::engines::wire_interp::act;
     use discv5::verif::Message;
     reset_globals();
-    let np = if wt.two_peers { 2 } else { 1 };
+    let np = if wt.crowded { 3 } else if wt.two_peers { 2 } else { 1 };
     let mut resp_mode = vec![AppMode::Immediate; 4];
     resp_mode[0] = AppMode::Manual;
     let cfg = WireConfig {
@@ -96,7 +101,7 @@ async fn run_wire(wt: &WireTalk, rep: &mut CaseReport) -> Option<(String, String
         dual_records: false,
         foreign_enr_answer: vec![],
         v_session_timeout_ms: None,
-        v_session_capacity: None,
+        v_session_capacity: if wt.crowded { Some(2) } else { None },
         v_dual_listen: false,
     };
     let mut w = World::new(cfg).await;
@@ -114,8 +119,20 @@ async fn run_wire(wt: &WireTalk, rep: &mut CaseReport) -> Option<(String, String
         }
     }
     let n = wt.n_req.max(1) as usize;
+    if wt.crowded {
+        for peer in [1u8, 2] {
+            act(&mut w, &Op::Submit { from: peer, to: 0, body: Body::Ping, with_record: true });
+            w.settle().await;
+            w.step += 1;
+            deliver_all(&mut w).await;
+        }
+        rep.class("wire-companion/session-cache-of-two-with-three-peers");
+    }
+    let talkers = if wt.crowded { 1 } else { np as usize };
     for j in 0..n {
-        act(&mut w, &Op::Submit { from: 1 + (j % np as usize) as u8, to: 0, body: Body::Talk(j as u8), with_record: true });
+        // (every other request has a one-byte payload >= 0x80 - the answer echoes it - e.g. a status code)
+        let n_body = if j % 2 == 1 { 133u8.wrapping_add(((j as u8) % 17).wrapping_mul(7)) } else { j as u8 };
+        act(&mut w, &Op::Submit { from: 1 + (j % talkers) as u8, to: 0, body: Body::Talk(n_body), with_record: true });
         w.settle().await;
         w.step += 1;
         deliver_all(&mut w).await;
@@ -140,7 +157,16 @@ async fn run_wire(wt: &WireTalk, rep: &mut CaseReport) -> Option<(String, String
         }
         rep.class("wire-companion/requesters-banned-before-the-answer");
     }
-    match wt.interlude % 3 {
+    if wt.crowded {
+        act(&mut w, &Op::Submit { from: 3, to: 0, body: Body::Ping, with_record: true });
+        w.settle().await;
+        w.step += 1;
+        deliver_all(&mut w).await;
+        held.extend(std::mem::take(&mut w.nodes[0].held_req));
+    }
+    // (a crowded cache has no room for the extra session of interlude 1: that would evict the
+    // requester's session by the LRU rule itself, and an answer needs that session)
+    match if wt.crowded { 0 } else { wt.interlude % 3 } {
         1 => {
             use crate::engines::wire::{AttachedRecord, EphKey, ForgedBody, Signer, XSel};
             act(&mut w, &Op::Probe { x: XSel::Peer(0), z: 0 });
@@ -488,14 +514,14 @@ impl Property for C20 {
         let step_cases = (prop_oneof![5 => Just(true), 1 => Just(false)], proptest::collection::vec(step, 1..20), any::<bool>(), 0u8..16, 0u8..16, prop_oneof![3 => Just(false), 1 => Just(true)])
             .prop_map(|(register_events, steps, respond_after_shutdown, known, moved, dual)| Case { register_events, steps, respond_after_shutdown, known, moved, dual, wire: None });
         let svc = step_cases;
-        let companion = (prop_oneof![2 => 1u8..31, 3 => 31u8..=90], any::<bool>(), any::<bool>(), prop_oneof![2 => Just(false), 1 => Just(true)], prop_oneof![2 => Just(false), 1 => Just(true)], prop_oneof![2 => Just(0u8), 1 => Just(1u8), 1 => Just(2u8)]).prop_map(|(n_req, two_peers, newest_first, ban_before_answer, nat, interlude)| Case {
+        let companion = (prop_oneof![2 => 1u8..31, 3 => 31u8..=90], any::<bool>(), any::<bool>(), prop_oneof![2 => Just(false), 1 => Just(true)], prop_oneof![2 => Just(false), 1 => Just(true)], prop_oneof![2 => Just(0u8), 1 => Just(1u8), 1 => Just(2u8)], prop_oneof![3 => Just(false), 1 => Just(true)]).prop_map(|(n_req, two_peers, newest_first, ban_before_answer, nat, interlude, crowded)| Case {
             register_events: true,
             steps: vec![],
             respond_after_shutdown: false,
             known: 0,
             moved: 0,
             dual: false,
-            wire: Some(WireTalk { n_req, two_peers, newest_first, ban_before_answer, nat, interlude }),
+            wire: Some(WireTalk { n_req, two_peers, newest_first, ban_before_answer, nat: nat && !crowded, interlude: if crowded { 0 } else { interlude }, crowded }),
         });
         prop_oneof![150 => svc, 1 => companion].boxed()
     }
